@@ -57,6 +57,11 @@ def struct(name, fields):
     return {"k": "struct", "cls": name, "fs": [{"n": f, "t": t} for f, t in fields]}
 
 
+def bits_type(w):
+    """source of the BitsN type (`from pymtl3 import *` defines Bits1 .. Bits255 only)"""
+    return "Bits%d" % w if w < 256 else "mk_bits( %d )" % w
+
+
 def type_source(sh):
     """Python source of the type annotation of a field of shape sh"""
     if sh["k"] == "leaf":
@@ -222,8 +227,8 @@ def render_stmt(st, ind, out, ff=False):
 def _const_path(n):
     """a field / constant-index chain into a bitstruct constant"""
     while n["k"] in ("field", "idx"):
-        if n["k"] == "idx" and n["i"]["k"] != "num":
-            return False
+        if n["k"] == "idx" and (n["i"]["k"] != "num" or n["i"]["v"] >= n["a"]["ty"]["n"]):
+            return False                 # a signal / loop variable / out-of-range index is not folded
         n = n["a"]
     return n["k"] == "sconst"
 
@@ -355,7 +360,7 @@ class Block:
             if "ty" in n:
                 collect_structs(n["ty"], self.structs)
             if k == "sig":
-                tstr = (n["ty"]["cls"] if "ty" in n else "St") if n.get("st") else "Bits%d" % n["w"]
+                tstr = (n["ty"]["cls"] if "ty" in n else "St") if n.get("st") else bits_type(n["w"])
                 if n["name"].startswith("sub."):          # s.sub.pi_*: in-port of the child (written here)
                     self.subports[n["name"][4:]] = ("in" if n["name"][4:6] == "pi" else "out", tstr)
                 elif n["name"].startswith("ifc."):        # s.ifc.pi_*: in-port of the top-level interface
@@ -370,7 +375,7 @@ class Block:
             elif k == "gnum":
                 self.gconsts[n["name"]] = str(n["v"])
             elif k == "bconst":
-                self.gconsts[n["name"]] = "Bits%d( %d )" % (n["w"], n["v"])
+                self.gconsts[n["name"]] = "%s( %d )" % (bits_type(n["w"]), n["v"])
             for f in ("a", "b", "c", "i", "lo", "hi"):
                 if f in n and isinstance(n[f], dict):
                     ex(n[f], store and f == "a")
@@ -484,9 +489,14 @@ DEEP = struct("Deep", [("n", NST), ("r", lst([2], P3)), ("z", leaf(1))])        
 CATALOGUE = [ST_SHAPE, FL, P1, P2, P3, NST, DEEP]
 
 
-def random_struct(R, name, depth=2, counter=None):
-    """a seeded random bitstruct type: 1-4 fields; BitsN, 1-3 dimensional lists, nested structs"""
-    counter = counter if counter is not None else [0]
+def random_struct(R, name, depth=2, counter=None, max_nbits=640):
+    """a seeded random bitstruct type: 1-4 fields; BitsN, 1-3 dimensional lists, nested structs
+    (at most max_nbits bits: a bitstruct packs into a Bits of fewer than 1024 bits)"""
+    if counter is None:
+        while True:
+            sh = random_struct(R, name, depth, [0], max_nbits)
+            if shape_nbits(sh) <= max_nbits:
+                return sh
     fields = []
     for j in range(R.randint(1, 4)):
         c = R.random()
@@ -631,6 +641,8 @@ class BlockGen:
             opts += ["zext", "sext"]
         if any(x > w for x in WIDTHS):
             opts += ["trunc", "slice", "slice"]
+        if w > 255:
+            opts = [o for o in opts if o != "cast"]        # BitsN( .. ) is a name only for N < 256
         c = R.choice(opts)
         d = depth - 1
         if c == "leaf":
